@@ -13,9 +13,9 @@ Print Assumptions c15_flattened_keys_are_leaf_paths.
 
 (* The invariant "stored name = actual position" is kept by the operations of a history: *)
 (* - a write of a fresh value under a name *)
-Theorem c15_names_kept_by_named_write : forall n pp d a v node',
+Theorem c15_names_kept_by_named_write : forall mx n pp d a v node',
   names_ok (VSub d a) = true -> names_ok v = true ->
-  set_field (FName n) pp (VSub d a) None v = Ok node' -> names_ok node' = true.
+  set_field mx (FName n) pp (VSub d a) None v = Ok node' -> names_ok node' = true.
 Proof. exact set_field_name_names_ok. Qed.
 Print Assumptions c15_names_kept_by_named_write.
 
